@@ -552,6 +552,20 @@ func (m *Machine) binop(op token.Token, x, y Value, t types.Type, xt types.Type)
 			}
 			return Sc{r}
 		}
+		if sx.box == nil && sy.box == nil && (op == token.LSS || op == token.LEQ || op == token.GTR || op == token.GEQ) {
+			cmp := m.cmpBytes(sx.b, sy.b) // -1 / 0 / 1 as 64-bit
+			zero := c.BV(0, 64)
+			switch op {
+			case token.LSS:
+				return Sc{c.Cmp("bvslt", cmp, zero)}
+			case token.LEQ:
+				return Sc{c.Cmp("bvsle", cmp, zero)}
+			case token.GTR:
+				return Sc{c.Cmp("bvsgt", cmp, zero)}
+			default:
+				return Sc{c.Cmp("bvsge", cmp, zero)}
+			}
+		}
 		panic("string op " + op.String())
 	}
 	// pointers / interfaces equality
